@@ -245,6 +245,15 @@ def rel_gate(v):
                     a, b = {'status': a['status'], 'n': a['n']}, {'status': b['status'], 'n': b['n']}
                 if cmpf == 'no_reason':
                     a.pop('reason', None); b.pop('reason', None)
+                if cmpf == 'reason_strip':
+                    # C15's one allowed difference: the response multi-space option strips exactly the leading SPs of the reason
+                    ra, rb = a.pop('reason', None), b.pop('reason', None)
+                    if isinstance(ra, list) and len(ra) == 2 and ra[0] >= 0:
+                        raw = bytes.fromhex(v['runs'][0]['buf']); off, ln = ra
+                        while ln > 0 and raw[off] == 0x20: off += 1; ln -= 1
+                        want = [off, ln] if ln else ['empty']
+                        if rb != want: a['reason'] = ra; b['reason'] = rb; a['reason_expected_after_strip'] = want
+                    elif ra != rb: a['reason'] = ra; b['reason'] = rb
                 if a != b: confirmed = True; notes.append(f'{prof}: {a} vs {b}'); break
     elif rel == 'hdr_vs_msg':
         pl = v['prefix_len']; entry = en(kind, v['api'])
@@ -290,7 +299,7 @@ def rel_gate(v):
         from .props import c20
         fam, variant = v['family'].split('@')
         spec = [f for f in c20.families('thorough') if f[0] == fam][0]
-        name, fl, kind2, mk = spec
+        name, fl, kind2, mk = spec[:4]
         bits = 0
         for i, f in enumerate(fl):
             if f is True: bits |= 1 << i
